@@ -264,6 +264,42 @@ def actorStep (vs : List Variant) (handled : List (String × List Val)) (m : SMs
   | some d => handled ++ [d]
   | none => handled
 
+/-- What `TActor::Msg::from_boxed` did with a serialized message (under `catch_unwind`). -/
+inductive Decoded where
+  | ok (d : String × List Val)
+  | err
+  | panic
+  deriving Repr
+
+/-- the actor as `handle_message` sees it: the messages `handle` was called with, whether the
+message loop goes on (`handle_message` returned `Ok`), and how many reply ports of `Call`s were
+dropped unanswered (their callers observe a closed port — an absence, never a value) -/
+structure ActorSt where
+  handled : List (String × List Val) := []
+  running : Bool := true
+  droppedPorts : Nat := 0
+  deriving Repr
+
+def SMsg.isCall : SMsg → Bool
+  | .call _ _ => true
+  | _ => false
+
+/-- `Actor::handle_message`, serialized branch (`actor.rs`): `catch_unwind(from_boxed)`;
+`Ok(Ok(msg))` ⇒ `handle(msg)` (the probe's `handle` records the message and, for a call, lets the
+port go); `Ok(Err(_))` and `Err(_)` (a panicking decoder) ⇒ the message — with its reply port — is
+dropped and `Ok(())` is returned: state and message loop are untouched. -/
+def handleMessage (st : ActorSt) (m : SMsg) : Decoded → ActorSt
+  | .ok d => { st with handled := st.handled ++ [d], droppedPorts := st.droppedPorts + (if m.isCall then 1 else 0) }
+  | .err => { st with droppedPorts := st.droppedPorts + (if m.isCall then 1 else 0) }
+  | .panic => { st with droppedPorts := st.droppedPorts + (if m.isCall then 1 else 0) }
+
+/-- the generated decoder as `from_boxed` sees it: a panic inside a field conversion is already
+caught by the generated code (`unpack_arg`) and reported as `Err` -/
+def decodedOf (vs : List Variant) (m : SMsg) : Decoded :=
+  match deserialize vs m with
+  | some d => .ok d
+  | none => .err
+
 /-! ## Frames -/
 
 /-- `FRAME_READ_CHUNK_SIZE` -/
@@ -281,6 +317,8 @@ inductive FrameErr where
   | tooLarge     -- "exceeds configured limit"
   | unalloc      -- "could not be allocated by a Vec"
   | undecodable  -- "invalid cluster protobuf frame"
+  /-- any other `tokio::io::Error` of the transport (`?` on `read_u64` / `read`): reader stops with "frame_read_error" -/
+  | io
   deriving Repr, DecidableEq
 
 /-- `checked_frame_length` -/
@@ -368,6 +406,24 @@ def readFrames {Msg : Type} (dec : Bytes → Option Msg) (max : Nat) (chunks : L
     List (FrameRes Msg) × List Bytes × List ReadEv :=
   readFramesLoop dec max (streamLen chunks + 1) chunks
 
+/-- A transport that fails: the pieces `chunks` arrive and then, instead of EOF, the next read
+returns an I/O error (`ConnectionReset`, …) when `endIo`. Every `?` of `read_u64` / `read_n_bytes`
+propagates it at exactly the point where an exhausted transport would have produced
+`UnexpectedEof`, so the reader's life is `readFrames` with the final `eof` replaced by `io`. -/
+def ioEnd {Msg : Type} (endIo : Bool) : FrameRes Msg → FrameRes Msg
+  | .err .eof => if endIo then .err .io else .err .eof
+  | r => r
+
+def readFramesIo {Msg : Type} (dec : Bytes → Option Msg) (max : Nat) (chunks : List Bytes) (endIo : Bool) :
+    List (FrameRes Msg) × List Bytes × List ReadEv :=
+  let r := readFrames dec max chunks
+  (r.1.map (ioEnd endIo), r.2)
+
+/-- the stop reason `SessionReader::handle` gives for an error -/
+def stopReason : FrameErr → String
+  | .eof => "channel_closed"
+  | _ => "frame_read_error"
+
 /-- Reference semantics of one frame on the unfragmented stream: outcome and bytes consumed. -/
 def parseOne {Msg : Type} (dec : Bytes → Option Msg) (max : Nat) (s : Bytes) : FrameRes Msg × Nat :=
   if s.length < 8 then (.err .eof, s.length)
@@ -444,6 +500,51 @@ def decodeMeta : Option Bytes → Option JobMeta
 /-- The metadata values that survive the wire unchanged. -/
 def metaOk (m : JobMeta) : Bool :=
   decide (m.submit < 2 ^ 64) && (match m.ttl with | none => true | some t => decide (0 < t ∧ t < 2 ^ 64))
+
+/-! ### `Job<TKey, TMsg>` as a message (`factory/job.rs`, `cluster` feature) -/
+
+/-- `Job::deserialize`: `CallReply` ⇒ `Err`; otherwise `deserialize_meta(metadata)` — `None` or
+fewer than 16 bytes ⇒ `Err`, the key is `TKey::from_bytes(meta[16..])` (called unguarded: `none`
+of the key decoder stands for its panic, which `handle_message`'s `catch_unwind` contains), the
+options are the first 16 bytes — and then the inner message `TMsg::deserialize` of the same
+variant / args with `metadata: None`. Result: key, options, inner message. -/
+def decodeJob (kty : Ty) (vs : List Variant) (m : SMsg) (md : Option Bytes) :
+    Option (Val × JobMeta × String × List Val) :=
+  match m with
+  | .callReply => none
+  | m =>
+    match decodeMeta md with
+    | none => none
+    | some jm =>
+      match decode kty jm.key with
+      | none => none
+      | some k => (deserialize vs m).map fun d => (k, jm, d.1, d.2)
+
+/-- `Job::serialize`: `serialize_meta` (16 option bytes, then the key's bytes) and the inner
+message's serialization, whose metadata slot receives the job metadata. -/
+def encodeJob (kty : Ty) (key : Val) (submit : Nat) (ttl : Option Nat) (v : Variant) (vals : List Val) :
+    Option (SMsg × Bytes) :=
+  (serialize v vals).map fun sm => (sm, encodeMeta ⟨submit, ttl, encode kty key⟩)
+
+/-! ### where the reply port stands (`parse.rs` `reply_port_index`, `codegen.rs` `build_ordered_bindings`) -/
+
+/-- `build_ordered_bindings(data_fields, port, port_index)`: the pattern / constructor argument
+list of a tuple-style `#[rpc]` variant — the data bindings in declaration order with the port
+binding inserted at `port_index` (the loop `for i in 0..total { if i == port_index {port} else
+{data[data_idx++]} }` as a structural recursion). -/
+def orderedBindings {α : Type} (port : α) : List α → Nat → List α
+  | data, 0 => port :: data
+  | [], _ + 1 => []            -- unreachable: the port index is an index into all fields
+  | d :: ds, k + 1 => d :: orderedBindings port ds k
+
+/-- `parse_rpc_variant`: the data fields are all fields except the one at `port_index` -/
+def dataFieldsOf {α : Type} (all : List α) (portIdx : Nat) : List α := all.eraseIdx portIdx
+
+/-- the two reply bridges of an `#[rpc]` variant (`gen_deserialize_port` on the callee's node:
+typed value ↦ `into_bytes`; `gen_serialize_port` on the caller's node: bytes ↦ `from_bytes` under
+`catch_unwind`, a panic ⇒ nothing is sent to the caller) composed: what the caller receives for the
+value `v : rt` the real actor answered. -/
+def replyBridge (rt : Ty) (v : Val) : Option Val := decode rt (encode rt v)
 
 /-! ## The run-time oracle (`C19.ok`), evaluated on the implementation's observations -/
 
